@@ -187,7 +187,7 @@ class Gen:
             return f"(if {d} > 0 {{ Some({self.any(inner, f'({d} - 1)')}) }} else {{ None }})"
         m = re.match(r"Sequence<(.+)>$", t)
         if m:
-            return f"(if {d} > 0 {{ let mut q = Vec::with_capacity(1); q.push({self.any(m.group(1), f'({d} - 1)')}); q }} else {{ Vec::new() }})"
+            return f"{{ let mut q = Vec::with_capacity(1); if {d} > 0 {{ q.push({self.any(m.group(1), f'({d} - 1)')}); }} q }}"
         return f"any_{t}({d}, s)"
 
     def gen_any_struct(self, name):
@@ -227,10 +227,10 @@ impl Exp {
 }
 /// a string of exactly n (0 or 1) arbitrary ASCII bytes
 fn any_string(n: usize) -> String {
-    // no heap object for the empty string: CBMC's cost grows steeply with the number of live allocations
-    if n == 0 { return String::new(); }
+    // even the empty string owns an allocation: String::new()'s dangling (integer-address) pointer makes CBMC's pointer
+    // analysis give up precision and the harnesses time out
     let mut s = String::with_capacity(1);
-    let b: u8 = kani::any(); kani::assume(b < 0x80); s.push(b as char);
+    if n > 0 { let b: u8 = kani::any(); kani::assume(b < 0x80); s.push(b as char); }
     s
 }
 '''
